@@ -15,7 +15,7 @@ sample_dense(radius/2) and maps the kept indices back into that same dense set; 
 Curve2::from_points_ccw use the same index-ascent vote with the same threshold.
 No caller of the radius search passes a squared quantity (the wrapper squares), the ball-pivot neighbourhood is 2*radius; sample_uniform keeps ONE cumulative-area
 entry per triangle (position = triangle id) and picks the search position of a draw in [0, total area).
-The Poisson mask write is unconditional inside the neighbour loop; find_start_on_index measures clearance to the nearest of all OTHER points."""
+The Poisson mask write is unconditional inside the neighbour loop; find_start_on_index measures clearance to the nearest of all OTHER points. Round 5: convex_hull_2d is the hull builder on every path (no small-input shortcut)."""
 NOT_DECIDED = "exactness of kiddo, coverage/maximality of the Poisson selection, the distribution of uniform sampling (only the table/id bookkeeping is decided), hull construction (parry), the pivoting walk itself; for the hull diameter only exhaustiveness of the pair scan is decided"
 ASSUMPTIONS = ["kiddo SquaredEuclidean queries take and return squared distances"]
 
